@@ -92,7 +92,7 @@ def shapes_for(algo, tier):
         return [(3, 4, 2)] if q else [(3, 4, 2), (2, 3, 3), (4, 2, 3)]
     if algo == "constrained_parafac":
         return [(3, 4, 2)] if q else [(3, 4, 2), (2, 3, 2, 2), (3, 3, 3)]
-    return [(4, 3), (3, 4, 2), (2, 3, 2, 2)] if q else [(4, 3), (2, 2), (3, 4, 2), (3, 3, 3), (2, 3, 2, 2)]
+    return [(4, 3), (3, 4, 2), (2, 3, 2, 2), (3, 1, 2)] if q else [(4, 3), (2, 2), (3, 4, 2), (3, 3, 3), (2, 3, 2, 2), (3, 1, 2), (1, 4, 3)]
 
 
 def ranks_for(algo, shape, tier):
